@@ -14,6 +14,17 @@ Oracle (independent of the model; Fractions + a static optimizer→lr-attribute 
 hyperparameter of exactly the mutated agent moved, to its OWN previous value × shrink|grow, clipped,
 cast; in range; right Python type; every optimizer group on that lr attribute carries the new value;
 nobody else moved.
+
+Source translation (`pre_gate`, before the Lean gate): `py2lean_hpmut.py` translates the source text of
+`RLParameter.mutate` and `HyperparameterConfig.sample` (agilerl/algorithms/core/registry.py of the tree
+under test) into `lean/Gen/HpMutGen.lean`; `Proofs/HpMutGenEq.lean` proves the generated definitions
+equal to `HpMut.mutate1` / `HpMut.sample` and `Props/C06.lean` restates the theorems over the generated
+definitions (`C06_source_translation_*`).  If the translator rejects the source or those proofs stop
+checking, that is a gate problem naming the broken declaration; the suites below then supply the failing
+input if there is one (else the VIOLATION line ends with no-failing-input-found).  Suite `mutate1`
+therefore also pins the draw (`coin` in the case: exactly 1/2, just below, 0, just below 1) so that a
+changed branch condition shows up as a concrete disagreement, and suite `sample` drives
+`HyperparameterConfig.sample` alone with the recorded permutation.
 """
 from __future__ import annotations
 
@@ -25,6 +36,8 @@ from fractions import Fraction
 import numpy as np
 import torch
 
+import common
+import py2lean_hpmut
 from common import ROOT, Check, InfraError, ddmin, frac
 
 torch.set_num_threads(1)
@@ -141,6 +154,9 @@ def tag_of(v) -> str:
 class Draws:
     """records what `torch.randperm` / `torch.rand` hand out while the implementation runs"""
 
+    def __init__(self, force_rand=None):
+        self.force_rand = force_rand          # pin every one-element `torch.rand` draw to this value
+
     def __enter__(self):
         self.log = []
         self._rp, self._r = torch.randperm, torch.rand
@@ -152,6 +168,8 @@ class Draws:
 
         def rand(*a, **k):
             out = self._r(*a, **k)
+            if out.numel() == 1 and self.force_rand is not None:
+                out = torch.full_like(out, self.force_rand)
             if out.numel() == 1:
                 self.log.append(("rand", float(out.reshape(-1)[0].item())))
             return out
@@ -165,15 +183,20 @@ class Draws:
 
     def pairs(self, ncfg: int) -> list:
         """[(perm, coin)] — one per `sample()` + `mutate()`"""
-        out, i = [], 0
         log = self.log
-        while i < len(log):
-            if log[i][0] == "perm" and len(log[i][1]) == ncfg and i + 1 < len(log) and log[i + 1][0] == "rand":
-                out.append((log[i][1], log[i + 1][1]))
-                i += 2
-            else:
-                i += 1
-        return out
+
+        def scan(any_length: bool) -> list:
+            out, i = [], 0
+            while i < len(log):
+                if log[i][0] == "perm" and (any_length or len(log[i][1]) == ncfg) and i + 1 < len(log) \
+                        and log[i + 1][0] == "rand":
+                    out.append((log[i][1], log[i + 1][1]))
+                    i += 2
+                else:
+                    i += 1
+            return out
+        # a tree whose `sample` draws a permutation of another length: hand that draw to the model as it is
+        return scan(False) or scan(True)
 
 
 def seed_all(s: int) -> None:
@@ -211,8 +234,15 @@ def gen_mutate1(rng: random.Random) -> dict:
                     if rng.random() < 0.2 else SMALL_SHRINK)
     gr = rng.choice(SMALL_GROW + [Fraction(1), Fraction(3, 4), Fraction(-2), Fraction(0)]
                     if rng.random() < 0.2 else SMALL_GROW)
-    return {"lo": str(lo), "hi": str(hi), "shrink": str(sh), "grow": str(gr), "dt": dt, "v": str(v),
-            "vint": bool(v.denominator == 1 and rng.random() < 0.7), "seed": rng.randrange(1 << 30)}
+    c = {"lo": str(lo), "hi": str(hi), "shrink": str(sh), "grow": str(gr), "dt": dt, "v": str(v),
+         "vint": bool(v.denominator == 1 and rng.random() < 0.7), "seed": rng.randrange(1 << 30)}
+    if rng.random() < 0.06:                                 # pin the draw on / next to the branch condition
+        c["coin"] = rng.choice(FORCED_COINS)
+    return c
+
+
+# float32 values `torch.rand(1).item()` can return: the branch boundary, its predecessor, the ends of [0, 1)
+FORCED_COINS = [0.5, 0.5 - 2.0 ** -25, 0.0, 1.0 - 2.0 ** -24, 0.5 + 2.0 ** -24]
 
 
 def run_mutate1(c: dict):
@@ -224,7 +254,7 @@ def run_mutate1(c: dict):
                     dtype=int if c["dt"] == "i" else float)
     p.value = as_py(v, c["vint"])
     seed_all(c["seed"])
-    with Draws() as d:
+    with Draws(force_rand=c.get("coin")) as d:
         out = p.mutate()
     coins = [x[1] for x in d.log if x[0] == "rand"]
     if len(coins) != 1:
@@ -253,8 +283,49 @@ def run_mutate1(c: dict):
         tags.append("m1-truncating")
     if c["dt"] == "i" and (lo.denominator != 1 or hi.denominator != 1):
         tags.append("m1-nonintegral-bounds")
+    if c.get("coin") is not None:
+        if coin != c["coin"]:
+            raise InfraError(f"pinned draw {c['coin']} came out as {coin}")
+        tags.append("m1-coin-at-half" if coin == 0.5 else "m1-coin-pinned")
     tags.append("m1-shrink" if coin < 0.5 else "m1-grow")
     return str(res), line, problems, tags
+
+
+# ----------------------------------------------------------------------------- suite 1b: HyperparameterConfig.sample
+def run_sample(c: dict):
+    """-> (impl line, model op line, problems, tags)"""
+    from agilerl.algorithms.core.registry import HyperparameterConfig, RLParameter
+    names = c["names"]
+    params = {n: RLParameter(min=float(i), max=float(i + 1)) for i, n in enumerate(names)}
+    cfg = HyperparameterConfig(**params)
+    seed_all(c["seed"])
+    raised = None
+    with Draws() as d:
+        try:
+            name, param = cfg.sample()
+        except Exception as e:                  # e.g. IndexError: the draw does not name a configured hyperparameter
+            raised, name, param = e, None, None
+    perms = [x[1] for x in d.log if x[0] == "perm"]
+    if len(perms) != 1 or any(x[0] == "rand" for x in d.log):
+        raise InfraError(f"HyperparameterConfig.sample made {len(d.log)} draws, the harness expects one torch.randperm "
+                         "(RNG source changed? update harness/c06.py)")
+    perm = perms[0]
+    line = f"hpmut sample {len(names)} " + " ".join(map(str, perm))
+    problems = []
+    if raised is not None:
+        problems.append(f"HyperparameterConfig.sample raised {type(raised).__name__}: {raised} on the configuration "
+                        f"{names} (draw torch.randperm -> {perm})")
+        return f"raised {type(raised).__name__}", line, problems, [f"sample-n{len(names)}"]
+    if name not in names:
+        problems.append(f"HyperparameterConfig.sample returned the name {name!r}, configured are {names}")
+    elif param is not params[name]:
+        problems.append(f"HyperparameterConfig.sample returned {name!r} with the RLParameter of "
+                        f"{[n for n in names if params[n] is param] or 'nobody'}")
+    if not problems and not (perm and perm[0] < len(names) and name == names[perm[0]]):
+        problems.append(f"HyperparameterConfig.sample returned {name!r} (index {names.index(name)}), the head of the "
+                        f"permutation {perm} names {names[perm[0]] if perm and perm[0] < len(names) else 'nobody'!r}")
+    impl = str(names.index(name)) if name in names else repr(name)
+    return impl, line, problems, [f"sample-n{len(names)}", f"sample-k{impl}"]
 
 
 # ----------------------------------------------------------------------------- suite 2: populations
@@ -794,12 +865,24 @@ def probe_lr_identity(chk: Check) -> None:
         report(chk, LR_IDENTITY_CASE, diff, problems, impl, model_out, shrink=False)
 
 
+# ----------------------------------------------------------------------------- source translation
+def pre_gate(chk: Check) -> None:
+    """Regenerate lean/Gen/HpMutGen.lean from the source text of the tree under test (before the Lean
+    gate) and re-check `generated = model` (Proofs/HpMutGenEq.lean) and the theorems over the generated
+    definitions (Props/C06.lean).  A failure is a gate problem; the suites then look for the failing input."""
+    common.translation_gate(chk, py2lean_hpmut, "Gen/HpMutGen.lean",
+                            ["Gen.HpMutGen", "Proofs.HpMutGenEq", "Props.C06"],
+                            "RLParameter.mutate, HyperparameterConfig.sample")
+
+
 # ----------------------------------------------------------------------------- check
 def run(chk: Check) -> None:
     rng = chk.rng
     quick = chk.tier == "quick"
     chk.rule = ("suite mutate1: RLParameter.mutate on dyadic (min, max, shrink, grow, value), float and int dtype, integral "
-                "and non-integral bounds, values inside / on / outside the range; suite population: 10 algorithms "
+                "and non-integral bounds, values inside / on / outside the range, 6% with the draw pinned at / next to "
+                "1/2 and the ends of [0,1); suite sample: HyperparameterConfig.sample on 1-8 configured names; "
+                "suite population: 10 algorithms "
                 "(DQN CQN NeuralUCB NeuralTS DDPG TD3 PPO MADDPG MATD3 IPPO) built by create_population / "
                 "Algo.population with one shared HyperparameterConfig over random subsets of their numeric "
                 "hyperparameters, then 4-16 ops (real learn() step of one/all agents — 60% of the histories start "
@@ -815,6 +898,9 @@ def run(chk: Check) -> None:
         "and handed to the model",
         "optimizer->learning-rate table of the oracle is read off the algorithms' constructors (harness/c06.py ALGOS)",
         "a TournamentSelection child is a clone of the parent whose tag attribute it carries",
+        "source translation (harness/py2lean_hpmut.py): Python numbers are exact rationals, torch.rand(1).item() and "
+        "torch.randperm(n) are explicit inputs (the latter of length n), a dict is an association list in insertion "
+        "order, min/max/int/float are the builtins",
     ]
     # ---- suite 1
     n1 = 1500 if quick else 20000
@@ -842,6 +928,28 @@ def run(chk: Check) -> None:
                           {"suite": "mutate1", **c, "impl": res, "model": out,
                            "correspondence": "harness/c06.py suite mutate1 vs HpMut.mutate1"}, no_input=True)
     chk.suite("mutate1", n1, bad1)
+    # ---- suite 1b
+    pool = ["lr", "batch_size", "learn_step", "gamma", "tau", "lr_actor", "lr_critic", "policy_freq"]
+    ns = 150 if quick else 2000
+    scases = []
+    for _ in range(ns):
+        names = list(pool)
+        rng.shuffle(names)
+        scases.append({"suite": "sample", "names": names[:rng.randint(1, len(pool))], "seed": rng.randrange(1 << 30)})
+    sres = [run_sample(c) for c in scases]
+    souts = drive(chk, ["reset"] + [r[1] for r in sres])[1:]
+    bad_s = 0
+    for c, (impl_s, line, problems, tags), out in zip(scases, sres, souts):
+        chk.case(["sample", c["names"], line], nontrivial=len(c["names"]) > 1, tags=tags)
+        if problems:
+            bad_s += 1
+            chk.violation(problems[0], {**c, "op": line, "impl": impl_s, "model": out, "oracle_problems": problems})
+        elif impl_s != out:
+            bad_s += 1
+            chk.violation(f"HyperparameterConfig.sample -> index {impl_s}, model sample = {out}; oracle holds on this input",
+                          {**c, "op": line, "impl": impl_s, "model": out,
+                           "correspondence": "harness/c06.py suite sample vs HpMut.sample"}, no_input=True)
+    chk.suite("sample", ns, bad_s)
     # ---- suite 2: corpus first
     cases = []
     for f in sorted((ROOT / "corpus" / "C06").glob("*.json")):
@@ -1005,6 +1113,17 @@ def replay(chk: Check, path: str) -> int:
             print(f"VIOLATION property=C06 replay={path}")
             return 1
         if res != out:
+            print(f"VIOLATION property=C06 replay={path} no-failing-input-found")
+            return 1
+        return 0
+    if c.get("suite") == "sample":
+        impl_s, line, problems, _ = run_sample(c)
+        out = drive(chk, ["reset", line])[1]
+        print(json.dumps({"op": line, "impl": impl_s, "model": out, "oracle_problems": problems}, indent=1))
+        if problems:
+            print(f"VIOLATION property=C06 replay={path}")
+            return 1
+        if impl_s != out:
             print(f"VIOLATION property=C06 replay={path} no-failing-input-found")
             return 1
         return 0
